@@ -44,7 +44,7 @@ func C04(o *world.Obs) *Result {
 			continue // C03's business
 		}
 		h := ReqHeader(ex.Req)
-		vs := Versions(o, src, ex.StartSeq)
+		vs := VersionsApplied(o, src, ex.StartSeq)
 		mismatchAll := true
 		onlyRefusals := true
 		hashCollision := false
